@@ -20,7 +20,8 @@ EXPLANATION = (
     " Third round: the span rule of unary steps, the sort of the goal cell and 'every accepted chart entry is expanded unconditionally' (R1.5) are checked here too: the best derivation must be reachable and handed out first."
     " Fourth round: the admission rule of supertags (R1.6, the beam rule of C16), no module-level table written by the grammar modules (R1.7), the per-sentence loop rules of the glue code and 'the options are read into the search configuration once, before the sentence loop' (R1.3)."
     " Fifth round: the chunking / in-order gather rules of the pooled path (shared with C11) are conditions of 'the parse returned for a sentence'."
-    ' Sixth and seventh round: the allowed roots are registered through the one category table (R1.3); the option plumbing of C16, with no option name captured by a named parameter of the compiled run(); a search loop written as a counted `while` is read as the `for` loop it is (a pre-increment budget test is one step short).')
+    ' Sixth and seventh round: the allowed roots are registered through the one category table (R1.3); the option plumbing of C16, with no option name captured by a named parameter of the compiled run(); a search loop written as a counted `while` is read as the `for` loop it is (a pre-increment budget test is one step short).'
+    ' Eighth round: a queue class of the header is the priority queue only if every member it redefines forwards unconditionally (agenda:<member>:redefined); bit-field members of the items and the declared layout of the score buffers (R1.2); options forwarded by name from the command line.')
 TRUSTED = ['clang-14 front end (-fsyntax-only, JSON AST)', 'CPython ast', 'rule table in DESIGN.md sections 2/C01 and 6']
 
 
